@@ -398,6 +398,7 @@ def case_line(c):
         'fail' if c['remap'] == 'fail' else '%d,%d' % c['remap'], '-' if c['minor'] is None else str(c['minor']), int(c['vu']))
     if c['tr'] == 'virtio':
         s += ' rsegs=%s wsegs=%s' % (','.join(map(str, c['rsegs'])), ','.join(map(str, c['wsegs'])))
+    if c.get('hook'): s += ' hook=1'      # a counting MetricsHook is installed (codec only): behaviour must not change
     return s
 
 def parse_obs(line):
